@@ -11,7 +11,7 @@
    semaphore itself (e.g. -EINVAL, -EIDRM) and are passed through by the code as transcribed below. *)
 From Coq Require Import ZArith List Bool.
 Import ListNotations.
-Require Import Verif.gen.Consts_rb Verif.RbModel Verif.RbSpec.
+Require Import Verif.gen.Consts_rb Verif.gen.Consts_rbow Verif.RbModel Verif.RbSpec.
 Local Open Scope Z_scope.
 
 (* notifier.timedwait_fn(instance, ms_timeout) with answer res: the count is decremented iff the wait succeeded *)
@@ -80,3 +80,9 @@ Fixpoint wconsistent (eidrm : Z) (b : rb) (ops : list wop) : Prop :=
   | o :: t => match o with WOp _ => True | WRead _ res => wait_consistent b res | WPeek res => wait_consistent b res end /\
               wconsistent eidrm (fst (wstep eidrm b o)) t
   end.
+
+(* for the model runner: the answer a single-threaded run sees, and the errno constant of the working tree *)
+Definition consistent_answer (b : rb) : Z :=
+  match sem b with None => 0 | Some c => if 0 <? c then 0 else - RB_ETIMEDOUT end.
+Definition read_wait (b : rb) (n : Z) : rb * Z * list Z := read_w RBO_EIDRM b n (consistent_answer b).
+Definition peek_wait (b : rb) : rb * Z * list Z := peek_w RBO_EIDRM b (consistent_answer b).
